@@ -100,15 +100,21 @@
   Proved: (a)–(i).  Not proved, precisely:
   (1) `C10_full` itself.  Of the audit, the clauses of `auditResponse` *after* the response is decoded
       remain, all of which need first
-      (1a) the request-side link: `viewRequest` (the audit's own walk to the TSIG RR: `findTsig`,
-           `specDecodeName`, `parseRdata`, `digestInput` over the request prefix) yields the key name,
-           RDATA fields and prefix of the model's `t` / `mw` (`hwc_tsig` keeps them existential);
+      (1a) (closed: `C10_request_view`, (j)) the request-side link: `viewRequest` (the audit's own walk
+           to the TSIG RR: `findTsig`, `specDecodeName`, `labelsOf`, `parseRdata`, the request prefix)
+           yields the key name, RDATA fields and prefix of the model's `t` / `mw` of the same `TsigRun`;
       and then, per clause:
-      (1b) `fits` (uncompressed size ≤ limit) ⇔ the model's `TsigFits` on the scan state — selects
-           between the "nofit-*" tags (decoded facts: `C10_decoded_tsig_does_not_fit`) and the rest;
-      (1c) `specTsigOutcome` = the model's decision (`tsigStopReply` / authenticated): own key lookup
-           (`findKey` on labels vs. on octets), `outputSizeOf`, `verdict` vs. `verify_request` (C11's
-           `C11_verify_*_iff`) — gives `tsig-error-*`, `rcode-*`, `notauth-on-authenticated`;
+      (1b) (closed: `C10_audit_fits`, (l), with `reservedLen_unsigned` / `reservedLen_response` /
+           `canonName_length` in Proofs/RequestFits) `fits` (uncompressed size ≤ limit) ⇔ the model's
+           `TsigFits` on the scan state — selects between the "nofit-*" tags (decoded facts:
+           `C10_decoded_tsig_does_not_fit`) and the rest;
+      (1c) (closed: `C10_audit_outcome`, (k) — under `KeysOK cfg.keys`: configured key names are
+           well-formed wire names in lower case, the API's `LowercaseName`; **`C10_full` needs this
+           hypothesis added**: the model compares `k.name` with the lower-cased request key name octet by
+           octet, the audit ignoring case) `specTsigOutcome` = the model's decision (`modelOutcome`;
+           `modelOutcome_stopReply` / `modelOutcome_authenticated` relate it to `tsigStopReply` and to
+           the authenticated rows) — gives `tsig-error-*`, `rcode-*`, `notauth-on-authenticated` once
+           combined with the rows of (h);
       (1d) `parseRdata (tsigRdata rr alg mac)` = the fields of `rr` (round trip) — gives `fudge`,
            `original-id`, `time-signed`, `other-data`, `badtime-*`, `mac-length`, `mac-not-empty`,
            `alg-name`, `key-name`; `tsig-missing` / `two-tsig` / `tsig-not-last` / `tsig-class-ttl`
@@ -138,6 +144,9 @@ import QV.Proofs.ServerSignedDecode
 import QV.Proofs.ServerSignedOwner
 import QV.Proofs.ServerAnswerDecode
 import QV.Proofs.ServerSignedNoFit
+import QV.Proofs.RequestFields
+import QV.Proofs.RequestOutcome
+import QV.Proofs.RequestFits
 import QV.Proofs.ServerSignedTable
 
 namespace QV.C10
@@ -1079,6 +1088,99 @@ theorem C10_audit_reaches_decoding (cfg : Cfg) (hcfg : ServerSafety.CfgWF cfg) (
   obtain ⟨b, d, hb, hd⟩ := ServerContent.signed_response_decodes cfg hcfg tr now 65535 req (minBuf_le tr _ hp16)
     hpay hp16 hreq (by rw [← a1]; exact hr) (a2.mp hv) hnp
   exact ⟨b, d, by rw [hb]; rfl, hd⟩
+
+/-! ## (j) the request-side link (1a) -/
+
+open QV.ServerScan in
+/-- **C10 (1a): the audit's view of the request is the model's.**  On a request whose scan reaches a
+    TSIG record: the record `d` that the audit's `findTsig` walks to is the one the model's scan hands
+    to `ReadTsigRr::try_from` (`t`); the model's message-without-TSIG `mw` is the request up to `d`,
+    i.e. the audit's `prefixOctets`; the decoded owner is the key name (`kn`: `t.keyName` is its wire
+    form in lower case, the audit's `keyName` its labels); the RDATA is `alg.wire ++ rest` with `alg`
+    the algorithm name (`t.algorithm` its wire form in lower case, the audit's `fields.algName` its
+    labels) and `Spec.Tsig.parseRdata` reads from `rest` exactly what `t`'s accessors return
+    (`FieldsAgree`: time signed, fudge, MAC, original ID, error, other data); and `viewRequest` returns
+    this view with `specTsigOutcome` evaluated on it (proof: `Proofs/RequestView`, `Proofs/RequestFields`;
+    the scan's post-condition `ArPost` now carries the record, `TsigView`). -/
+theorem C10_request_view (cfg : Server.Cfg) (tr : Server.Transport) (now bufLen : Nat) (req : Bytes)
+    (hbuf : minBuf tr cfg.payload ≤ bufLen) (hpay : 512 ≤ cfg.payload) (hreq : req.size ≤ Rdata.USIZE_MAX)
+    (hr : (Spec.Server.specScanWith (catKind cfg) cfg.payload req).respond = true)
+    (hv : (Spec.Server.specScanWith (catKind cfg) cfg.payload req).verdict = .tsigReached)
+    (hm : Spec.ServerTsig.Hm) (keys : List Spec.ServerTsig.KeyCfg) :
+    ∃ (t : Tsig.ReadTsigRr) (mw : Bytes) (r' : Reader.Reader) (question : Option (WName × Nat × Nat))
+      (d : Spec.Server.Delim) (owner : List UInt8) (nl fl : Nat) (kn alg : WName) (rest : List UInt8),
+      ServerContent.TsigRun cfg tr now bufLen req t mw r' question ∧
+      Spec.ServerTsig.findTsig req = some d ∧ d.ty = 250 ∧ d.cls = 255 ∧ d.rawTtl = 0 ∧
+      Spec.specDecodeName req d.pos = some (owner, nl, fl) ∧ kn.WF ∧ kn.wire = owner ∧
+      alg.WF ∧ tsigRd req d = alg.wire ++ rest ∧ 10 ≤ rest.length ∧
+      Spec.Tsig.field16 rest 8 + 16 ≤ rest.length ∧ 12 ≤ d.pos ∧ 1 ≤ Spec.Server.hdr req 10 ∧
+      mw = req.extract 0 d.pos ∧ r'.cursor = d.next ∧
+      t = ⟨Tsig.lowerName owner, Tsig.lowerName alg.wire,
+        (Tsig.rd16 (alg.wire ++ rest) (alg.wire.length + 8)).toNat, alg.wire ++ rest⟩ ∧
+      FieldsAgree t (fieldsOf alg.labels rest) ∧
+      Spec.ServerTsig.viewRequest hm keys req now =
+        some ⟨kn.labels, fieldsOf alg.labels rest, mw.toList,
+          Spec.ServerTsig.specTsigOutcome keys kn.labels (fieldsOf alg.labels rest)
+            (fun k => hm k.sha256 k.secret (Spec.Tsig.digestInput .request mw.toList
+              (fieldsOf alg.labels rest).originalId
+              { keyName := kn.labels, algName := alg.labels, timeSigned := (fieldsOf alg.labels rest).timeSigned,
+                fudge := (fieldsOf alg.labels rest).fudge, error := (fieldsOf alg.labels rest).error,
+                other := (fieldsOf alg.labels rest).other } [])) now,
+          Spec.ServerTsig.findKey keys kn.labels⟩ :=
+  request_view cfg tr now bufLen req hbuf hpay hreq hr hv hm keys
+
+/-! ## (k) the decision (1c) -/
+
+open QV.ServerScan in
+/-- **C10 (1c): the audit's `specTsigOutcome` is the model's decision.**  For configured keys whose
+    names are `LowercaseName`s (`KeysOK`: well-formed wire names in lower case — what the library API
+    guarantees; see the header), the audit's view of the request is
+    `⟨key name labels, RDATA fields, request prefix, outcome, key⟩` with
+    `outcome = modelOutcome cfg.keys now kn alg rest mw` — the decision `tsigProcess` takes on the very
+    record `t = viewRr kn alg rest` and prefix `mw` of the run: the algorithm table
+    (`outputSizeOf_view`), the key map (`findKey_view`: lookup by labels ignoring case = lookup by
+    lower-case octets), `verify_request` = RFC 8945 §5.2 on the audit's fields (`verifyRequest_view`, from
+    C11's `C11_verify_decision`), the HMAC (`hmSpec` = `realHmac`), the clock.  `modelOutcome_stopReply`
+    / `modelOutcome_authenticated` tie `modelOutcome` to the rows of the decision table (`tsigStopReply`,
+    `C10_rows_exhaustive`). -/
+theorem C10_audit_outcome (cfg : Server.Cfg) (tr : Server.Transport) (now bufLen : Nat) (req : Bytes)
+    (hbuf : minBuf tr cfg.payload ≤ bufLen) (hpay : 512 ≤ cfg.payload) (hreq : req.size ≤ Rdata.USIZE_MAX)
+    (hr : (Spec.Server.specScanWith (catKind cfg) cfg.payload req).respond = true)
+    (hv : (Spec.Server.specScanWith (catKind cfg) cfg.payload req).verdict = .tsigReached)
+    (hk : KeysOK cfg.keys) (nowT : Tsig.TimeSigned) (hnow : Tsig.TimeSigned.tryFromUnix now = some nowT) :
+    ∃ (t : Tsig.ReadTsigRr) (mw : Bytes) (r' : Reader.Reader) (question : Option (WName × Nat × Nat))
+      (d : Spec.Server.Delim) (kn alg : WName) (rest : List UInt8),
+      ServerContent.TsigRun cfg tr now bufLen req t mw r' question ∧
+      Spec.ServerTsig.findTsig req = some d ∧ kn.WF ∧ alg.WF ∧
+      mw = req.extract 0 d.pos ∧ r'.cursor = d.next ∧ t = viewRr kn alg rest ∧
+      Spec.ServerTsig.viewRequest hmSpec (specKeys cfg.keys) req now =
+        some ⟨kn.labels, fieldsOf alg.labels rest, mw.toList, modelOutcome cfg.keys nowT kn alg rest mw.toList,
+          Spec.ServerTsig.findKey (specKeys cfg.keys) kn.labels⟩ :=
+  request_outcome cfg tr now bufLen req hbuf hpay hreq hr hv hk nowT hnow
+
+/-! ## (l) "the reply fits" (1b) -/
+
+open QV.ServerScan in
+/-- **C10 (1b): the audit's `fits` is the model's `TsigFits`.**  On the state the scan left
+    (`preTsigState`), the reply TSIG `(mode, rr)` fits iff
+    `12 + |question| + (OPT ? 11 : 0) + reservedLen mode rr ≤ limit`, the limit being 65535 over TCP and
+    the scan's UDP limit over UDP (512 without an OPT: `specTail_noedns`) — which is the audit's
+    `need ≤ limit`, since `reservedLen` is `|key name| + 10 + |algorithm name| + 16 + MAC + other`
+    (`reservedLen_unsigned`: no MAC, no other data for BADKEY / BADSIG / FORMERR; `reservedLen_response`:
+    the hash's output size, plus six octets of other data for BADTIME) and the canonical forms the audit
+    measures have the lengths of the wire forms (`canonName_length`). -/
+theorem C10_audit_fits (cfg : Cfg) (tr : Transport) (bufLen : Nat) (req : Bytes)
+    (hbuf : minBuf tr cfg.payload ≤ bufLen) (hpay : 512 ≤ cfg.payload)
+    (hr : (Spec.Server.specScanWith (catKind cfg) cfg.payload req).respond = true)
+    (mode : TsigMode) (rr : TsigRr) :
+    TsigFits (preTsigState cfg tr bufLen req) mode rr ↔
+      12 + (qOctets (Spec.Server.specScanWith (catKind cfg) cfg.payload req).question).length +
+        (if (Spec.Server.specScanWith (catKind cfg) cfg.payload req).edns then 11 else 0) +
+        reservedLen mode rr ≤
+      (match tr with
+       | .udp => (Spec.Server.specScanWith (catKind cfg) cfg.payload req).limitUdp
+       | .tcp => 65535) :=
+  tsigFits_iff cfg tr bufLen req hbuf hpay hr mode rr
 
 /-! ## non-vacuity: concrete instances of the hypotheses used above -/
 
